@@ -883,7 +883,7 @@ def gen_big_unit(ck, names):
     return u
 
 
-def cproc(cc, path, args=(), timeout=300):
+def cproc(cc, path, args=(), timeout=60):
     try:
         r = subprocess.run([cc] + list(args) + [path], stdout=subprocess.PIPE, stderr=subprocess.PIPE, text=True,
                            timeout=timeout, errors="replace")
@@ -941,7 +941,22 @@ def check_unit(ck, cc, u, tag, d):
             raise common.Broken("checks/c16.py generated an invalid unit (%s): %s" % (tag, gout))
         small = src
         m = re.search(r"%s:(\d+):\d+: error" % re.escape(path), err) if rc != "timeout" else None
-        if m and 0 < int(m.group(1)) <= len(u.out):
+        if rc == "timeout":
+            # smallest prefix of the unit (plus pending closers) on which the compiler still hangs
+            sp = os.path.join(d, "slice.c")
+            lo, hi = 0, len(u.out) - 1
+            while lo < hi:
+                mid = (lo + hi) // 2
+                open(sp, "w").write(structural_slice(u, mid, u.names))
+                if cproc(cc, sp, timeout=5)[0] == "timeout":
+                    hi = mid
+                else:
+                    lo = mid + 1
+            cand = structural_slice(u, lo, u.names)
+            open(sp, "w").write(cand)
+            if cproc(cc, sp, timeout=5)[0] == "timeout" and gcc_accepts(sp)[0]:
+                small = cand
+        elif m and 0 < int(m.group(1)) <= len(u.out):
             li = int(m.group(1)) - 1
             sp = os.path.join(d, "slice.c")
             for cand in (structural_slice(u, li, names_on_line(u, li)), structural_slice(u, li, u.names)):
